@@ -341,6 +341,10 @@ func runC14(c *ctx) {
 }
 
 func c14One(c *ctx, w **worker, entry, tm string, bs []byte, label string) {
+	if c.unclassified() >= 25 {
+		c.dist["skipped_after_25_failures"]++ // the verdict is settled; each further runaway costs a watchdog period
+		return
+	}
 	key := ""
 	if len(bs) >= 2 {
 		key = entry + "/" + tm + "/" + hx(bs[:min(len(bs), 64)]) + strconv.Itoa(len(bs))
